@@ -724,6 +724,12 @@ func (c *HostClient) doNonNilReqResp(req *protocol.Request, resp *protocol.Respo
 		return retry, err
 	}
 	shouldCloseConn = resetConnection || req.ConnectionClose() || resp.ConnectionClose()
+	if resp.SkipBody && !req.Header.IsHead() && !req.Header.IsConnect() &&
+		!resp.Header.MustSkipContentLength() && resp.Header.ContentLength() != 0 {
+		// the application asked not to read a body that the server does send: it is still
+		// on the wire, the connection cannot serve another exchange
+		shouldCloseConn = true
+	}
 
 	if resp.Header.StatusCode() == consts.StatusSwitchingProtocols &&
 		bytes.EqualFold(resp.Header.Peek(consts.HeaderConnection), bytestr.StrUpgrade) {
